@@ -41,7 +41,8 @@ CONSTANTS
   FixNoBody,    \* TRUE: HEAD / 1xx / 204 / 304 never have a body read                  (finding 10)
   Fix1xx,       \* TRUE: interim 1xx responses are skipped                              (finding 23)
   FixBadCL,     \* TRUE: invalid Content-Length is a protocol error
-  FixTrailer    \* TRUE: the trailer is parsed leniently (no ValueError for a line without a colon)
+  FixTrailer,   \* TRUE: the trailer is parsed leniently (no ValueError for a line without a colon)
+  FixHold       \* TRUE: header lines are held back and become response data only when the response is the final one
 
 CR == 13
 LF == 10
@@ -151,11 +152,12 @@ VARIABLES
   eof,      \* the server has closed its side (seen by the client once buf and net are empty)
   copen,    \* the client holds an open connection
   hdr,      \* first tokens of the header lines read so far
+  held,     \* header octets read but not yet passed on as response data (FixHold)
   bleft,    \* bytes_left (length / chunk)
   tr,       \* trailer data read so far
   err       \* error class being raised
 
-impl == <<x, pc, buf, net, eof, copen, hdr, bleft, tr, err>>
+impl == <<x, pc, buf, net, eof, copen, hdr, held, bleft, tr, err>>
 vars == <<msgs, ref, impl, obsvars, warcDone>>
 
 \* position of the first LF (0: none); written so that TLC evaluates it in linear time
@@ -167,7 +169,7 @@ InitWith(ms) ==
   /\ msgs = ms
   /\ ref = [i \in XS |-> RefRec(ms[i])]
   /\ x = 1 /\ pc = "start" /\ buf = <<>> /\ net = <<>> /\ eof = FALSE /\ copen = FALSE
-  /\ hdr = <<>> /\ bleft = 0 /\ tr = <<>> /\ err = "none"
+  /\ hdr = <<>> /\ held = <<>> /\ bleft = 0 /\ tr = <<>> /\ err = "none"
   /\ delivered = [i \in XS |-> <<>>] /\ recorded = [i \in XS |-> <<>>]
   /\ reqRecorded = [i \in XS |-> <<>>] /\ reqSent = [i \in XS |-> <<>>]
   /\ outcome = [i \in XS |-> "none"] /\ connClosed = [i \in XS |-> FALSE]
@@ -202,7 +204,7 @@ Start ==
   /\ reqSent' = [reqSent EXCEPT ![x] = ReqTok(x)]
   /\ reqRecs' = [reqRecs EXCEPT ![x] = @ + 1]
   /\ reqBlock' = [reqBlock EXCEPT ![x] = ReqTok(x)]
-  /\ pc' = "hdr" /\ hdr' = <<>> /\ tr' = <<>> /\ bleft' = 0
+  /\ pc' = "hdr" /\ hdr' = <<>> /\ held' = <<>> /\ tr' = <<>> /\ bleft' = 0
   /\ UNCHANGED <<msgs, ref, x, err, delivered, recorded, outcome, connClosed, leftover, unseen, stalled,
                  respRecs, respBlock, linked, warcDone>>
 
@@ -234,7 +236,7 @@ Stall ==
   /\ (NeedsLine /\ LFIndex(All) = 0) \/ (NeedsBytes /\ All = <<>>)
   /\ eof' = TRUE
   /\ stalled' = [stalled EXCEPT ![x] = TRUE]
-  /\ UNCHANGED <<msgs, ref, x, pc, buf, net, copen, hdr, bleft, tr, err, delivered, recorded, reqRecorded, reqSent,
+  /\ UNCHANGED <<msgs, ref, x, pc, buf, net, copen, hdr, held, bleft, tr, err, delivered, recorded, reqRecorded, reqSent,
                  outcome, connClosed, leftover, unseen, reqRecs, respRecs, reqBlock, respBlock, linked, warcDone>>
 
 EndsLF(l) == l # <<>> /\ l[Len(l)] = LF
@@ -259,20 +261,24 @@ Strategy ==
   ELSE IF HasField(KCL) THEN "length" ELSE "close"
 
 \* ---- Stream.read_response: one header line
+\* Session.start: what read_response reads is response data of the FINAL response only.  FixHold: the lines are held
+\* back; they are passed on when the header block ends (or the read fails) and dropped with a skipped interim response.
+Hold(l)  == IF FixHold THEN held' = held \o l /\ UNCHANGED recorded ELSE Notify(l) /\ UNCHANGED held
+Flush(l) == IF FixHold THEN Notify(held \o l) /\ held' = <<>> ELSE Notify(l) /\ UNCHANGED held
+Drop1xx(l) == IF FixHold THEN held' = <<>> /\ UNCHANGED recorded ELSE Notify(l) /\ UNCHANGED held
 HdrLineAt(j) ==
   /\ pc = "hdr" /\ LineReady
   /\ TakeLine(j)
   /\ LET l == TheLine IN
-     /\ Notify(l)
-     /\ IF ~EndsLF(l) THEN Raise("network_error") /\ UNCHANGED hdr                   \* 'Connection closed.'
+     /\ IF ~EndsLF(l) THEN Raise("network_error") /\ Flush(l) /\ UNCHANGED hdr       \* 'Connection closed.'
         ELSE IF l \in {<<CR, LF>>, <<LF>>}
-        THEN IF hdr = <<>> THEN Raise("protocol_error") /\ UNCHANGED hdr             \* 'No header received.'
+        THEN IF hdr = <<>> THEN Raise("protocol_error") /\ Flush(l) /\ UNCHANGED hdr  \* 'No header received.'
              ELSE IF ~(IsTok(hdr[1]) /\ TokKind(hdr[1]) = KStatus)
-                  THEN Raise("protocol_error") /\ UNCHANGED hdr                        \* status line does not parse
+                  THEN Raise("protocol_error") /\ Flush(l) /\ UNCHANGED hdr            \* status line does not parse
                   ELSE IF Fix1xx /\ StatusSeen \in 100..199
-                       THEN pc' = "hdr" /\ hdr' = <<>> /\ UNCHANGED err                \* skip the interim response
-                       ELSE pc' = "body" /\ UNCHANGED <<hdr, err>>
-        ELSE pc' = "hdr" /\ hdr' = Append(hdr, l[1]) /\ UNCHANGED err
+                       THEN pc' = "hdr" /\ hdr' = <<>> /\ Drop1xx(l) /\ UNCHANGED err  \* skip the interim response
+                       ELSE pc' = "body" /\ Flush(l) /\ UNCHANGED <<hdr, err>>
+        ELSE pc' = "hdr" /\ hdr' = Append(hdr, l[1]) /\ Hold(l) /\ UNCHANGED err
   /\ UNCHANGED <<msgs, ref, x, eof, copen, bleft, tr, delivered, reqRecorded, reqSent, outcome, connClosed, leftover,
                  unseen, stalled, reqRecs, respRecs, reqBlock, respBlock, linked, warcDone>>
 
@@ -288,19 +294,19 @@ Body ==
                     ELSE pc' = "close" /\ UNCHANGED <<bleft, err>>               \* warning, then read until close
                ELSE pc' = "len" /\ bleft' = FieldVal(KCL) /\ UNCHANGED err
      ELSE pc' = "close" /\ UNCHANGED <<bleft, err>>
-  /\ UNCHANGED <<msgs, ref, x, buf, net, eof, copen, hdr, tr, obsvars, warcDone>>
+  /\ UNCHANGED <<msgs, ref, x, buf, net, eof, copen, hdr, held, tr, obsvars, warcDone>>
 
 \* ---- _read_body_by_length: one connection.read(4096) 
 LenDone ==
   /\ pc = "len" /\ bleft = 0
   /\ pc' = "fin"
-  /\ UNCHANGED <<msgs, ref, x, buf, net, eof, copen, hdr, bleft, tr, err, obsvars, warcDone>>
+  /\ UNCHANGED <<msgs, ref, x, buf, net, eof, copen, hdr, held, bleft, tr, err, obsvars, warcDone>>
 
 LenEOF ==
   /\ pc = "len" /\ bleft > 0 /\ AtEOF                              \* EOF before n bytes: 'Connection closed.'
   /\ Raise("network_error")
   /\ UNCHANGED <<buf, net, copen, bleft, delivered, recorded>>
-  /\ UNCHANGED <<msgs, ref, x, eof, hdr, tr, reqRecorded, reqSent, outcome, connClosed, leftover, unseen, stalled,
+  /\ UNCHANGED <<msgs, ref, x, eof, hdr, held, tr, reqRecorded, reqSent, outcome, connClosed, leftover, unseen, stalled,
                  reqRecs, respRecs, reqBlock, respBlock, linked, warcDone>>
 
 LenReadAt(k) ==
@@ -313,14 +319,14 @@ LenReadAt(k) ==
           /\ copen' = IF n > bleft THEN FALSE ELSE copen           \* content overrun: cut and close
           /\ Notify(data) /\ Deliver(data)
           /\ UNCHANGED <<pc, err>>
-  /\ UNCHANGED <<msgs, ref, x, eof, hdr, tr, reqRecorded, reqSent, outcome, connClosed, leftover, unseen, stalled,
+  /\ UNCHANGED <<msgs, ref, x, eof, hdr, held, tr, reqRecorded, reqSent, outcome, connClosed, leftover, unseen, stalled,
                  reqRecs, respRecs, reqBlock, respBlock, linked, warcDone>>
 
 \* ---- _read_body_until_close
 CloseEOF ==
   /\ pc = "close" /\ AtEOF
   /\ pc' = "fin" /\ UNCHANGED <<buf, net, delivered, recorded>>
-  /\ UNCHANGED <<msgs, ref, x, eof, copen, hdr, bleft, tr, err, reqRecorded, reqSent, outcome, connClosed, leftover,
+  /\ UNCHANGED <<msgs, ref, x, eof, copen, hdr, held, bleft, tr, err, reqRecorded, reqSent, outcome, connClosed, leftover,
                  unseen, stalled, reqRecs, respRecs, reqBlock, respBlock, linked, warcDone>>
 
 CloseReadAt(k) ==
@@ -328,7 +334,7 @@ CloseReadAt(k) ==
   /\      /\ TakeBytes(ReadSize, k)
           /\ Notify(Prefix(Avail(k), ReadSize)) /\ Deliver(Prefix(Avail(k), ReadSize))
           /\ UNCHANGED pc
-  /\ UNCHANGED <<msgs, ref, x, eof, copen, hdr, bleft, tr, err, reqRecorded, reqSent, outcome, connClosed, leftover,
+  /\ UNCHANGED <<msgs, ref, x, eof, copen, hdr, held, bleft, tr, err, reqRecorded, reqSent, outcome, connClosed, leftover,
                  unseen, stalled, reqRecs, respRecs, reqBlock, respBlock, linked, warcDone>>
 
 \* ---- ChunkedTransferReader.read_chunk_header
@@ -353,14 +359,14 @@ ChHdrAt(j) ==
           /\ bleft' = HexVal(f, 0)
           /\ pc' = IF HexVal(f, 0) = 0 THEN "trailer" ELSE "ch_body"
           /\ UNCHANGED err
-  /\ UNCHANGED <<msgs, ref, x, eof, copen, hdr, tr, delivered, reqRecorded, reqSent, outcome, connClosed, leftover,
+  /\ UNCHANGED <<msgs, ref, x, eof, copen, hdr, held, tr, delivered, reqRecorded, reqSent, outcome, connClosed, leftover,
                  unseen, stalled, reqRecs, respRecs, reqBlock, respBlock, linked, warcDone>>
 
 \* ---- read_chunk_body, bytes_left > 0: connection.read(min(bytes_left, 4096))
 ChBodyEOF ==
   /\ pc = "ch_body" /\ AtEOF                     \* empty read: "chunk finished" -> the next header read hits EOF
   /\ pc' = "ch_hdr" /\ UNCHANGED <<buf, net, bleft, delivered, recorded>>
-  /\ UNCHANGED <<msgs, ref, x, eof, copen, hdr, tr, err, reqRecorded, reqSent, outcome, connClosed, leftover,
+  /\ UNCHANGED <<msgs, ref, x, eof, copen, hdr, held, tr, err, reqRecorded, reqSent, outcome, connClosed, leftover,
                  unseen, stalled, reqRecs, respRecs, reqBlock, respBlock, linked, warcDone>>
 
 ChBodyAt(k) ==
@@ -370,7 +376,7 @@ ChBodyAt(k) ==
           /\ bleft' = bleft - Len(data)
           /\ Notify(data) /\ Deliver(data)
           /\ pc' = IF bleft - Len(data) = 0 THEN "ch_nl" ELSE "ch_body"
-  /\ UNCHANGED <<msgs, ref, x, eof, copen, hdr, tr, err, reqRecorded, reqSent, outcome, connClosed, leftover,
+  /\ UNCHANGED <<msgs, ref, x, eof, copen, hdr, held, tr, err, reqRecorded, reqSent, outcome, connClosed, leftover,
                  unseen, stalled, reqRecs, respRecs, reqBlock, respBlock, linked, warcDone>>
 
 \* ---- read_chunk_body, bytes_left = 0: the line end after the chunk data
@@ -380,7 +386,7 @@ ChNlAt(j) ==
   /\ LET l == TheLine IN
      IF Len(l) > 2 THEN Raise("protocol_error") /\ UNCHANGED recorded          \* 'Error reading newline after chunk.'
      ELSE Notify(l) /\ pc' = "ch_hdr" /\ UNCHANGED err
-  /\ UNCHANGED <<msgs, ref, x, eof, copen, hdr, bleft, tr, delivered, reqRecorded, reqSent, outcome, connClosed,
+  /\ UNCHANGED <<msgs, ref, x, eof, copen, hdr, held, bleft, tr, delivered, reqRecorded, reqSent, outcome, connClosed,
                  leftover, unseen, stalled, reqRecs, respRecs, reqBlock, respBlock, linked, warcDone>>
 
 \* ---- read_trailer: lines until a blank one - or EOF (readline returns b'' there: finding 11);
@@ -402,7 +408,7 @@ TrailerAt(j) ==
      THEN /\ Notify(t) /\ tr' = <<>>
           /\ IF BadTrailer(t) /\ ~FixTrailer THEN Raise("other_error") ELSE pc' = "fin" /\ UNCHANGED err
      ELSE tr' = t /\ UNCHANGED <<pc, err, recorded>>
-  /\ UNCHANGED <<msgs, ref, x, eof, copen, hdr, bleft, delivered, reqRecorded, reqSent, outcome, connClosed,
+  /\ UNCHANGED <<msgs, ref, x, eof, copen, hdr, held, bleft, delivered, reqRecorded, reqSent, outcome, connClosed,
                  leftover, unseen, stalled, reqRecs, respRecs, reqBlock, respBlock, linked, warcDone>>
 
 \* ---- end of read_body (should_close: the request is HTTP/1.1, so only "Connection: close" closes),
@@ -418,7 +424,7 @@ Complete(closeNow) ==
   /\ linked' = [linked EXCEPT ![x] = TRUE]
   /\ x' = IF x < NX THEN x + 1 ELSE x
   /\ pc' = IF x < NX THEN "start" ELSE "done"
-  /\ UNCHANGED <<msgs, ref, buf, net, eof, hdr, bleft, tr, err, delivered, recorded, reqRecorded, reqSent, stalled,
+  /\ UNCHANGED <<msgs, ref, buf, net, eof, hdr, held, bleft, tr, err, delivered, recorded, reqRecorded, reqSent, stalled,
                  reqRecs, reqBlock, warcDone>>
 
 Fin   == pc = "fin" /\ Complete(FieldVal(KConn) = 1)
@@ -435,7 +441,7 @@ RaiseErr ==
   /\ x' = IF x < NX THEN x + 1 ELSE x
   /\ pc' = IF x < NX THEN "start" ELSE "done"
   /\ err' = "none"
-  /\ UNCHANGED <<msgs, ref, buf, net, eof, hdr, bleft, tr, delivered, recorded, reqRecorded, reqSent, stalled,
+  /\ UNCHANGED <<msgs, ref, buf, net, eof, hdr, held, bleft, tr, delivered, recorded, reqRecorded, reqSent, stalled,
                  reqRecs, respRecs, reqBlock, respBlock, linked, warcDone>>
 
 \* the reads with their nondeterministic choice: how far the buffer extends once the line is in (j), how many
